@@ -290,20 +290,27 @@ def run_unit(unit, snap=None, use_cache=True):
 
 
 def _fn_spans(text):
-    """(name, first line, last line) of every fn in the generated file."""
+    """(name, first line, last line) of every fn in the generated file.  The body of a function whose
+    header carries requires/ensures (which may contain braces) starts at the first line that is just
+    `{`; one-line functions fall back to plain brace matching."""
     lines = text.split("\n")
     spans = []
-    i = 0
     rx = re.compile(r"^\s*(?:pub\s+)?(?:open\s+|closed\s+)?(?:proof\s+|spec\s+|exec\s+)?(?:const\s+)?fn\s+([A-Za-z0-9_]+)")
-    while i < len(lines):
+    starts = [i for i, l in enumerate(lines) if rx.match(l)]
+    for k, i in enumerate(starts):
         m = rx.match(lines[i])
-        if m:
-            try:
-                e = _match_brace(lines, i)
-            except Undecided:
-                e = i
-            spans.append((m.group(1), i + 1, e + 1))
-        i += 1
+        nxt = starts[k + 1] if k + 1 < len(starts) else len(lines)
+        body = None
+        if not lines[i].rstrip().endswith("}"):
+            for j in range(i, nxt):
+                if lines[j].strip() == "{":
+                    body = j
+                    break
+        try:
+            e = _match_brace(lines, body if body is not None else i)
+        except Undecided:
+            e = i
+        spans.append((m.group(1), i + 1, e + 1))
     return spans
 
 
